@@ -108,6 +108,8 @@ func (g *Gen) step(fn *ssa.Function, st *State, in ssa.Instruction) {
 			st.cells[p.Cell] = v
 		case p.Kind == "globptr":
 			st.globs[p.T] = v
+		case p.Kind == "unmodelledptr":
+			// dropped (see FieldAddr)
 		default:
 			panic(oos("store through unsupported pointer kind " + p.Kind))
 		}
@@ -244,7 +246,7 @@ func (g *Gen) step(fn *ssa.Function, st *State, in ssa.Instruction) {
 		base := g.val(st, x.X)
 		if base.Cell != nil && base.Kind == "ptr" {
 			if cv, ok := st.cells[base.Cell]; ok && cv.Kind == "struct" {
-				g.regs[x] = Val{Kind: "fieldcell", Cell: base.Cell, Idx: fmt.Sprint(x.Field), Ty: x.Type()}
+				g.regs[x] = Val{Kind: "fieldcell", Cell: base.Cell, Idx: fmt.Sprint(x.Field), Ty: x.Type(), Obj: fieldSpecName(x.X.Type(), x.Field)}
 				break
 			}
 		}
@@ -258,11 +260,22 @@ func (g *Gen) step(fn *ssa.Function, st *State, in ssa.Instruction) {
 			g.regs[x] = Val{Kind: "heapfield", T: base.T, Idx: key, Ty: x.Type()}
 			break
 		}
+		if base.Kind == "elemptr" || base.Kind == "unmodelledptr" {
+			// field of a struct stored inside a slice/array: such elements are not modelled; writes are
+			// dropped and reads yield an unconstrained value (sound: nothing else can observe them)
+			g.unmodelled["field of a struct element inside a slice (writes dropped, reads unconstrained)"] = true
+			g.regs[x] = Val{Kind: "unmodelledptr", Ty: x.Type()}
+			break
+		}
 		panic(oos("FieldAddr on " + base.Kind))
 	case *ssa.Field:
 		sv := g.val(st, x.X)
 		if (sv.Kind == "struct" || sv.Kind == "tuple") && x.Field < len(sv.Tup) {
-			g.regs[x] = sv.Tup[x.Field]
+			fv := sv.Tup[x.Field]
+			if _, isFn := x.Type().Underlying().(*types.Signature); isFn && fv.FnSpec == "" {
+				fv.FnSpec = fieldSpecName(x.X.Type(), x.Field) // a function-typed field: governed by its `field` behaviour spec
+			}
+			g.regs[x] = fv
 		} else {
 			g.regs[x] = g.symFor(x.Type(), "field", st)
 		}
@@ -276,7 +289,11 @@ func (g *Gen) step(fn *ssa.Function, st *State, in ssa.Instruction) {
 func (g *Gen) load(st *State, x *ssa.UnOp, a Val) Val {
 	switch {
 	case a.Kind == "fieldcell":
-		return getPath(st.cells[a.Cell], strings.Split(a.Idx, "."))
+		fv := getPath(st.cells[a.Cell], strings.Split(a.Idx, "."))
+		if _, isFn := x.Type().Underlying().(*types.Signature); isFn && fv.FnSpec == "" && a.Obj != "" {
+			fv.FnSpec = a.Obj
+		}
+		return fv
 	case a.Kind == "heapfield":
 		return g.heapRead(st, a.Idx, a.T, x.Type())
 	case a.Kind == "globptr" && isMap(x.Type()):
@@ -292,6 +309,8 @@ func (g *Gen) load(st *State, x *ssa.UnOp, a Val) Val {
 		return g.elemVal(st, e, x.Type())
 	case a.Kind == "globptr":
 		return g.globalVal(st, a.T, x.Type())
+	case a.Kind == "unmodelledptr":
+		return g.symFor(x.Type(), "unmodelled", st)
 	case a.Kind == "opaque" || a.Kind == "err":
 		if _, isStruct := x.Type().Underlying().(*types.Struct); isStruct && a.T != "" {
 			return Val{Kind: "opaque", T: a.T, Ty: x.Type()} // struct loaded through a pointer keeps the pointer's identity
